@@ -199,7 +199,22 @@ class MapRef:
         return sel(self.dom_arr(), self._kt(k))
 
     def nonempty(self):
-        return self.dom_arr() != const_arr(self.spec.arity, z3.BoolVal(False), BOOL)
+        dom = self.dom_arr()
+        ne = dom != const_arr(self.spec.arity, z3.BoolVal(False), BOOL)
+        if self.spec.arity == 1:
+            # witness: "non-empty" <=> the dict has the key w, for a w chosen per domain term (sound: pick any
+            # member if there is one).  w is logged as an index term, so the universal hypotheses over this key
+            # role are instantiated at it - without it "some key exists" never meets "for all keys".
+            ctx = self.world.ctx
+            memo = ctx.__dict__.setdefault("_ne_witness", {})
+            k = dom.get_id()
+            if k not in memo:
+                w = ctx.fresh_term(INT, "wit")
+                memo[k] = (dom, w)
+                ctx.add_fact(ne == z3.Select(dom, w))
+                role = self.spec.role if not isinstance(self.spec.role, tuple) else self.spec.role[0]
+                ctx.add_index_term(role, w)
+        return ne
 
     def with_world(self, w):
         return MapRef(w, self.prefix, self.spec, self.keys)
